@@ -167,7 +167,7 @@ func decorOfWrapper(rt interface{}) M {
 	if !ok {
 		return nil
 	}
-	dv := reflect.ValueOf(tt).Elem().FieldByName("decor")
+	dv := decorField(tt)
 	g := M{}
 	all := ""
 	for _, f := range renderFields {
@@ -176,8 +176,36 @@ func decorOfWrapper(rt interface{}) M {
 	for _, f := range decorFields {
 		all += dv.FieldByName(f).String()
 	}
-	boxless := b2i(dv.FieldByName("isBoxless").Bool())
+	boxless := b2i(decorBoxless(dv))
 	return M{"boxless": boxless, "empty": b2i(all == "" && boxless == 0), "g": g}
+}
+
+// decorField finds the decoration a text wrapper holds: the field of type decoration.Decoration, whatever its name
+// (reading an unexported field through reflection is permitted).
+func decorField(tt *texttable.TextTable) reflect.Value {
+	v := reflect.ValueOf(tt).Elem()
+	want := reflect.TypeOf(decoration.Decoration{})
+	for i := 0; i < v.NumField(); i++ {
+		if v.Type().Field(i).Type == want {
+			return v.Field(i)
+		}
+		if v.Type().Field(i).Type == reflect.PtrTo(want) && !v.Field(i).IsNil() {
+			return v.Field(i).Elem()
+		}
+	}
+	derr("the text wrapper holds no field of type decoration.Decoration")
+	return reflect.Value{}
+}
+
+// decorBoxless: the decoration's private "no box at all" flag (its only bool field, whatever its name); a
+// decoration without such a flag is boxless if it is not the empty decoration and draws nothing.
+func decorBoxless(dv reflect.Value) bool {
+	for i := 0; i < dv.NumField(); i++ {
+		if dv.Field(i).Kind() == reflect.Bool {
+			return dv.Field(i).Bool()
+		}
+	}
+	return false
 }
 
 func allEmpty(g M) bool {
@@ -507,13 +535,13 @@ func freshRender(tg renderTarget, t tabular.Table) (status, text string) {
 		}
 		if st, ok := src.(*texttable.TextTable); ok {
 			// same decoration as the wrapper under test (copied field by field)
-			dv := reflect.ValueOf(st).Elem().FieldByName("decor")
+			dv := decorField(st)
 			var d decoration.Decoration
 			nv := reflect.ValueOf(&d).Elem()
 			for _, f := range decorFields {
 				nv.FieldByName(f).SetString(dv.FieldByName(f).String())
 			}
-			if dv.FieldByName("isBoxless").Bool() {
+			if decorBoxless(dv) {
 				d = decoration.NoBox()
 			}
 			tt.SetDecoration(d)
